@@ -85,16 +85,19 @@ def generate(seed, mode):
     nlook = w.choice([1, 2, 2, 3])
     lookup_only = w.random() < 0.25
     nkeys = w.randint(2, 4)
-    keys = [{'e': w.randrange(len(ENTRIES)), 'req': [w.randrange(3) for _ in range(w.choice([1, 1, 2]))], 'n': w.randrange(2)} for _ in range(nkeys)]
+    keys = [{'e': w.randrange(len(ENTRIES)), 'req': [w.randrange(3) for _ in range(w.choice([1, 1, 2]))], 'n': w.randrange(2),
+             'p': w.choice([0, 0, 1])} for _ in range(nkeys)]
+    if w.random() < 0.5 and nkeys > 1:
+        keys[1] = dict(keys[0])           # two threads asking the identical key: overlapping first lookups
     threads = []
     for t in range(nlook):
         threads.append({'kind': 'lookup', 'ops': [{'key': o.randrange(nkeys)} for _ in range(o.randint(2, 6))]})
     pre = [{'m': o.choice(['reg', 'sub', 'regbase']), 'req': [o.randrange(3) for _ in range(o.choice([1, 1, 2]))], 'n': o.randrange(2),
-            'v': o.randrange(4)} for _ in range(o.randint(1, 4))]
+            'v': o.randrange(4), 'p': 0} for _ in range(o.randint(0, 4))]
     if not lookup_only:
         threads.append({'kind': 'mutator', 'ops': [{'m': o.choice(['reg', 'reg', 'unreg', 'sub', 'unsub', 'regbase', 'rbases', 'irebase', 'cdecl']),
                                                     'req': [o.randrange(3) for _ in range(o.choice([1, 1, 2]))], 'n': o.randrange(2),
-                                                    'v': o.randrange(4)} for _ in range(o.randint(1, 5))]})
+                                                    'v': o.randrange(4), 'p': o.choice([0, 1, 1])} for _ in range(o.randint(1, 5))]})
     return {'machine': MACHINE, 'seed': seed, 'part': 'threads',
             'world': {'flav': flav, 'keys': keys, 'pre': pre, 'lookup_only': lookup_only, 'late_base_change': lookup_only or w.random() < 0.3,
                       'p_switch': w.choice([0.05, 0.15, 0.4]), 'sched_seed': w.getrandbits(30), 'warm': w.random() < 0.5},
@@ -698,6 +701,8 @@ def execute_threads(program, ctx, mode):
     R1 = InterfaceClass('TR1', (R0,), {}, __module__='zisim.t')
     R2 = InterfaceClass('TR2', (Interface,), {}, __module__='zisim.t')
     P0 = InterfaceClass('TP0', (Interface,), {}, __module__='zisim.t')
+    P1 = InterfaceClass('TP1', (P0,), {}, __module__='zisim.t')      # first registered by the mutator, if at all
+    PS = [P0, P1]
     RS = [R0, R1, R2]
 
     class K:
@@ -731,16 +736,17 @@ def execute_threads(program, ctx, mode):
         req = tuple(RS[x] for x in m['req'])
         nm = ['', 'a'][m['n']]
         v = vals[m['v']]
+        P = PS[m.get('p', 0)]
         if k == 'reg':
-            Sx.register(req, P0, nm, v)
+            Sx.register(req, P, nm, v)
         elif k == 'unreg':
-            Sx.unregister(req, P0, nm)
+            Sx.unregister(req, P, nm)
         elif k == 'sub':
-            Sx.subscribe(req, P0, v)
+            Sx.subscribe(req, P, v)
         elif k == 'unsub':
-            Sx.unsubscribe(req, P0, v)
+            Sx.unsubscribe(req, P, v)
         elif k == 'regbase':
-            Bx.register(req, P0, nm, v)
+            Bx.register(req, P, nm, v)
         elif k == 'rbases':
             Sx.__bases__ = () if Sx.__bases__ else (Bx,)
         elif k == 'irebase' and real:
@@ -752,10 +758,11 @@ def execute_threads(program, ctx, mode):
                 classImplementsOnly(K, R2)
             spec_state['cdecl'] = not spec_state['cdecl']
 
-    def ask(Sx, key):
+    def ask(Sx, key, raw=None):
         e = ENTRIES[key['e']]
         req = [RS[x] for x in key['req']]
         nm = ['', 'a'][key['n']]
+        P0 = PS[key.get('p', 0)]
         if e in OBJ_ENTRIES:
             objs = [ob] * len(req)
             if e == 'subscribers':
@@ -770,10 +777,17 @@ def execute_threads(program, ctx, mode):
         if e in ('lookup', 'lookup1'):
             return Sx.lookup(req, P0, nm)
         if e == 'lookupAll':
-            return sorted(Sx.lookupAll(req, P0), key=lambda kv: kv[0])
+            r = Sx.lookupAll(req, P0)
+            if raw is not None:
+                raw.append((key, r))
+            return sorted(r, key=lambda kv: kv[0])
         if e == 'names':
             return sorted(Sx.names(req, P0))
-        return list(Sx.subscriptions(req, P0))
+        r = Sx.subscriptions(req, P0)
+        if raw is not None:
+            raw.append((key, r))
+        return list(r)
+    raw_results = []
     history = []       # registry mutations applied so far (completed), for twins
     for m in W['pre']:
         apply(B, S, m, True)
@@ -809,7 +823,7 @@ def execute_threads(program, ctx, mode):
                 key = W['keys'][op['key'] % len(W['keys'])]
                 inv = stamp()
                 try:
-                    r = ask(S, key)
+                    r = ask(S, key, raw_results)
                     exc = None
                 except Exception as e:     # noqa
                     r, exc = None, e
@@ -875,6 +889,23 @@ def execute_threads(program, ctx, mode):
             if not any(r == x for x in allowed):
                 ctx.violation('C11', 'thread-atomicity', 'C11|threads|%s|answer-not-from-any-overlapped-state|%s' % (cfg, ENTRIES[key['e']]),
                               {'key': key, 'got': repr(r), 'allowed': [repr(x) for x in allowed], 'flavour': flav})
+    # 2b. reference balance of the cached multi-results handed to several threads
+    seen = set()
+    for key, r in list(raw_results):
+        if id(r) in seen or (isinstance(r, tuple) and not r):
+            continue            # the empty tuple is an immortal singleton
+        seen.add(id(r))
+        holders = sum(1 for (_k, x) in raw_results if x is r)
+        req = [RS[x] for x in key['req']]
+        cur = S.lookupAll(req, PS[key.get('p', 0)]) if ENTRIES[key['e']] == 'lookupAll' else S.subscriptions(req, PS[key.get('p', 0)])
+        cached = 1 if cur is r else 0
+        # holders (tuples inside raw_results) + the cache + `r` + `cur` (if same) + getrefcount's argument
+        want = holders + cached + 1 + cached + 1
+        got = sys.getrefcount(r)
+        if got != want:
+            ctx.violation('C11', 'thread-refcount', 'C11|threads|reference-balance|%s|%s' % (ENTRIES[key['e']], 'underflow' if got < want else 'leak'),
+                          {'key': key, 'got': got, 'want': want})
+        del cur
     # 3. quiescence: every key again, must be the final state's answer
     final = history + [m for (_i, _r, m) in done_muts]
     for key in W['keys']:
